@@ -244,6 +244,8 @@ func c08Families() []c08Family {
 	text("cte-long-media", func(n int) string { return "@application/x[" + strings.Repeat("ff ", n) + "]" })
 	text("cte-garbage", func(n int) string { return strings.Repeat("\x01", n) })
 	text("cte-invalid-utf8", func(n int) string { return strings.Repeat("\x9a", n) })
+	text("cte-garbage-lines", func(n int) string { return strings.Repeat("\x01\n", n) })
+	text("cte-error-lines", func(n int) string { return strings.Repeat("]\n", n) })
 	text("cte-many-errors", func(n int) string { return strings.Repeat("] ", n) })
 	return fs
 }
@@ -383,7 +385,7 @@ func runC08(r *Run) {
 		}
 		n := scales[rng.Intn(len(scales))]
 		switch f.name {
-		case "cte-garbage", "cte-invalid-utf8", "cte-many-errors":
+		case "cte-garbage", "cte-invalid-utf8", "cte-many-errors", "cte-garbage-lines", "cte-error-lines":
 			if rng.P(1, 2) {
 				n = 100000 // one syntax error per character: the cost of an error must not depend on the document
 			}
